@@ -66,13 +66,13 @@ def worker_main(pid: str, tier: str, seed: int, shard: int, nshards: int, out_pa
     stats: Counter = Counter()
     sigs: set = set()
     evaluations = 0
+    ncases = 0
     samples: List[Any] = []
     viols: Dict[str, dict] = {}
     vcount: Counter = Counter()
     inconclusive: List[str] = []
     t0 = time.time()
     for case in prop.cases(tier, seed, shard, nshards):
-        evaluations += 1
         try:
             res = prop.run_case(case, stats)
         except loop.BudgetExceeded:
@@ -83,9 +83,13 @@ def worker_main(pid: str, tier: str, seed: int, shard: int, nshards: int, out_pa
             if len(inconclusive) > 20:
                 break
             continue
+        evaluations += res.get("evals", 1)
+        for extra in res.get("sigs", ()):
+            sigs.add(sig_hash(extra))
         if res.get("nontrivial"):
             sigs.add(sig_hash(res.get("sig", case)))
-        if len(samples) < 3 or (evaluations % 997 == 0 and len(samples) < 8):
+        ncases += 1
+        if len(samples) < 3 or (ncases % 997 == 0 and len(samples) < 8):
             samples.append(jsonable(res.get("sample", case)))
         for v in res.get("violations", ()):
             key = v["key"]
